@@ -34,6 +34,18 @@ CLAIMED = {
         "OpenAPI 3 style table returns the value with scalars as strings; C19_form_explode_array (documented exception); C19_reject (only the library exception, "
         "only for non scalar/list/dict). Tie: extracted model vs format.py on every style x explode x shape; spec decoder cross-checked against an independent Python decoder.",
    note=TB + "Modelled: coq/Format.v; numbers enter the model as the text Python's str() gives (float formatting not modelled); booleans inside containers are outside the quantifier.", ref="5/C19"),
+ "C14": dict(cat="proof", tech="Coq proof (build half) + model-implementation correspondence and oracle (resolve half)",
+   text="C14_build: every graph built with the public API is consistently linked on both ends (induction over API programs). resolve(): executable model "
+        "coq/GraphOps.v tied to Node.resolve on hand-built graphs with references (node table, result root, exception class); theorems about the resolve model "
+        "are still to be added, so the resolve half currently rests on the correspondence plus the implementation oracle (check_consistency, no Reference "
+        "reachable, every reference replaced by the node it names, documented exception for unknown / duplicate names).",
+   note=TB + "Modelled: coq/Graph.v, coq/GraphOps.v. Front-end graphs are checked by their own streams as they are added.", ref="5/C14"),
+ "C15": dict(cat="other", tech="model-implementation correspondence of optimize() + sample-set oracle; Coq semantic-preservation theorem in progress",
+   text="Executable model of Decision.optimize (chain detection, splice, re-pointing of incoming records) tied to the implementation on graphs with chains of "
+        "do-nothing decisions (full node table after optimize, then generated paths); oracle compares the sets of samples (side-effecting nodes applied, invalid "
+        "leaf applied) over all complete executions up to a bound before/after, check_consistency and node count. The Coq theorem C15_sem (simulation both ways) "
+        "is not closed yet, hence the level is not claimed as proof.",
+   note=TB + "Modelled: coq/GraphOps.v.", ref="5/C15"),
 }
 
 NOT_YET = {}
